@@ -7,6 +7,7 @@ import json
 from typing import Any, Dict, List, Optional, Tuple
 
 from harness.lib.core import VERIF, Ctx, Rng, lean_lock, run_driver, shrink_ops
+from harness.extract import reward as x_reward
 from harness.rigs import reward as rig
 
 MANIFEST = {
@@ -169,6 +170,7 @@ def _families(ctx: Ctx) -> List[Tuple[str, dict]]:
 
 def run(ctx: Ctx):
     with lean_lock():
+        ctx.extract("Reward", x_reward.emit)
         ctx.prove(MODULES, exes=[EXE], clean=False, leanchecker=ctx.thorough)
     ctx.cov["rule"] = ("cases = (agent set with reward components and weights, sharing graph, declaration order, step sequence of "
                        "(post-step state, per-agent history item)) or a raw graph; non-trivial when the load is refused, or some "
